@@ -4,6 +4,7 @@ import OV.Model.C08Repl
 import OV.Model.C08Reduce
 import OV.Model.C08IntArith
 import OV.Model.C08Creation
+import OV.Model.C08Attr
 import OV.Drivers.Loop
 /-! Line-protocol driver for C08.  `C08 <fn> <args…>` → `term @ model @ spec`.
     shape: `2,3` (`-` = rank 0); shape list: `2,3/2,1`; int list: `1,2` (`-` = empty); `N` = None. -/
@@ -17,6 +18,8 @@ def pShapes (s : String) : Option (List Shape) := (s.splitOn "/").mapM pShape
 def pInt (s : String) : Option Int := s.toInt?
 def pOptInt (s : String) : Option (Option Int) := if s == "N" then some none else s.toInt?.map some
 def pOptInts (s : String) : Option (Option (List Int)) := if s == "N" then some none else (pInts s).map some
+def pIL (s : String) : Option IntOrList :=
+  if s.startsWith "i" then (s.drop 1).toString.toInt?.map IntOrList.int else (pInts s).map IntOrList.list
 def pBool (s : String) : Option Bool := if s == "1" then some true else if s == "0" then some false else none
 
 def shShape (s : Shape) : String := if s.isEmpty then "-" else ",".intercalate (s.map toString)
@@ -209,6 +212,24 @@ def handle (args : List String) : String :=
   | ["f32", a] => (do
       let a ← pInt a
       pure (out "-" (toString (IntArith.f32OfInt a)) "-")).getD bad
+  -- pool / conv / pad attribute adjustment
+  | ["avg_pool", k, s, ks, st, pd, ce, ci] => (do
+      let k ← pInt k; let s ← pShape s; let ks ← pIL ks; let st ← pIL st; let pd ← pIL pd; let ce ← pBool ce; let ci ← pBool ci
+      pure (out (avg_pool.term k.toNat s.length ks st pd ce ci) (rS (avg_pool.model k.toNat s ks st pd ce)) (rS (avg_pool.spec k.toNat s ks st pd ce)))).getD bad
+  | ["max_pool", k, s, ks, st, pd, dl, ce, wi] => (do
+      let k ← pInt k; let s ← pShape s; let ks ← pIL ks; let st ← pIL st; let pd ← pIL pd; let dl ← pIL dl; let ce ← pBool ce; let wi ← pBool wi
+      let m := max_pool.model k.toNat s ks st pd dl ce
+      let sp := max_pool.spec k.toNat s ks st pd dl ce
+      if wi then
+        pure (out (max_pool.termWithIndices k.toNat ks st pd dl ce) (rL (m.map (fun x => [x, x]))) (rL (sp.map (fun x => [x, x]))))
+      else pure (out (max_pool.term k.toNat s.length ks st pd dl ce) (rS m) (rS sp))).getD bad
+  | ["conv", s, w, st, pd, dl, tr, op, g] => (do
+      let s ← pShape s; let w ← pShape w; let st ← pIL st; let pd ← pIL pd; let dl ← pIL dl; let tr ← pBool tr; let op ← pInts op; let g ← pInt g
+      pure (out (conv.term s w st pd dl tr op g.toNat) (rS (conv.model s w st pd dl tr op g.toNat)) (rS (conv.spec s w st pd dl tr op g.toNat)))).getD bad
+  | ["pad", s, pd, kind, arg] => (do
+      let s ← pShape s; let pd ← pInts pd
+      let t := if kind == "c" then pad.termConst s.length pd arg else if kind == "n" then pad.termMode s.length pd "constant" else pad.termMode s.length pd arg
+      pure (out t (rS (pad.model s pd)) (rS (pad.spec s pd)))).getD bad
   -- creation
   | ["linspace", n] => (do
       let n ← pInt n
